@@ -210,6 +210,11 @@ func WriteBufferToFileIndirect(fp stdio.ReadWriteSeeker, buffer wal.OffsetIndexB
 		}
 		dataToBeWritten = append(oldData, dataToBeWritten...)
 		dataLen = int64(len(dataToBeWritten))
+	} else {
+		// the payload is a window into the serialized transaction group, which has been handed to the
+		// replication sender and may still be queued or being marshalled there: sort a copy, not the
+		// shared buffer
+		dataToBeWritten = append([]byte(nil), dataToBeWritten...)
 	}
 
 	// Determine if this is a continuation write
